@@ -95,6 +95,7 @@ special_setitem = _hook("special_setitem")
 special_delitem = _hook("special_delitem")
 special_iterate = _hook("special_iterate")
 special_instantiate = _hook("special_instantiate")
+obj_as_array = _hook("obj_as_array")      # array-like library objects stored into / combined with numpy arrays (__array__)
 
 
 def obj_isinstance(interp, st, o, typ):
@@ -177,6 +178,20 @@ def _norm_index(arr, idx):
     return out
 
 
+def _int_cells(a):
+    """is `a` an array of integers? (declared so, or a generic cell is an integer term: elementwise arithmetic on integer
+    arrays keeps integer cells but does not record the sort)"""
+    if not isinstance(a, Arr) or a.sort in ("bool", "xreal"):
+        return False
+    if a.sort == "int":
+        return True
+    try:
+        v = a.get(tuple(T.Fresh.int("ic") for _ in a.shape))
+    except Unsupported:
+        return False
+    return isinstance(v, int) and not isinstance(v, bool) or (is_sym(v) and z3.is_int(v))
+
+
 def arr_getitem(interp, st, arr, idx):
     idx = st.deref(idx) if isinstance(idx, Ref) else idx
     if isinstance(idx, tuple):
@@ -184,6 +199,21 @@ def arr_getitem(interp, st, arr, idx):
     sel = _mask_select(interp, st, arr, idx)
     if sel is not None:
         return sel
+    if isinstance(idx, tuple) and len(idx) == arr.ndim >= 2 and all(isinstance(it, Arr) and it.ndim == 1 and _int_cells(it) for it in idx):
+        # one integer index array per axis, all of one length: out[q] = arr[i0[q], i1[q], ...]  (numpy advanced indexing
+        # with index arrays of equal shape)
+        n = _bshape(st, interp, [it.shape for it in idx])[0]
+        if interp.ctx is not None and interp.ctx.check_bounds:
+            q = T.Fresh.int("q")
+            for k, it in enumerate(idx):
+                v = T.to_z3(it.get((q,)))
+                interp.ctx.oblige(st, f"index.gather.dim{k}", z3.ForAll([q], z3.Implies(z3.And(q >= 0, q < T.to_z3(n)),
+                                                                                          z3.And(v >= 0, v < T.to_z3(arr.shape[k])))))
+        r = Arr((n,), lambda ix, idx=idx, arr=arr: arr.get(tuple(it.get((ix[0],)) for it in idx)), (), arr.sort)
+        nm = getattr(arr, "nanmask", None)
+        if nm is not None:
+            r.nanmask = Arr((n,), lambda ix, idx=idx, nm=nm: nm.get(tuple(it.get((ix[0],)) for it in idx)), (), "bool")
+        return r
     spec = _norm_index(arr, idx)
     if all(s[0] == "i" for s in spec):
         ix = tuple(s[1] for s in spec)
@@ -323,6 +353,10 @@ def sel_setitem(interp, st, sel, idx, v):
 def arr_setitem(interp, st, arr, idx, v):
     idx = st.deref(idx) if isinstance(idx, Ref) else idx
     v = st.deref(v)
+    if isinstance(v, Obj):
+        conv = obj_as_array(interp, st, v)
+        if conv is not NotImplemented:
+            v = conv
     if isinstance(idx, tuple):
         idx = tuple(st.deref(i) if isinstance(i, Ref) else i for i in idx)
     if isinstance(idx, Arr) and idx.sort == "bool" and not isinstance(v, MaskedSel):
@@ -357,6 +391,17 @@ def arr_setitem(interp, st, arr, idx, v):
         return arr.updated(lambda ix: dom.get(ix), lambda ix: v)
     if isinstance(v, (list, tuple)):
         v = carr_from_list(_deep_list(st, v))
+    if isinstance(idx, tuple) and len(idx) == 1 and isinstance(idx[0], Arr) and idx[0].sort != "bool":
+        idx = idx[0]
+    if isinstance(idx, Arr) and idx.ndim == 1 and arr.ndim >= 1 and _int_cells(idx):
+        # x[ind] = v with ind provably 0, 1, ..., len(x)-1: the store x[:] = v  (a general scatter is not modelled)
+        q = T.Fresh.int("q")
+        ident = z3.And(T.to_z3(T.cmp("==", idx.shape[0], arr.shape[0])),
+                       z3.ForAll([q], z3.Implies(z3.And(q >= 0, q < T.to_z3(arr.shape[0])), T.to_z3(idx.get((q,))) == q)))
+        if interp is None or not interp.valid(st, ident, timeout=3000):
+            raise Unsupported("store through an integer index array that is not the identity on the axis")
+        from .interp import Slice
+        idx = Slice(None, None, None)
     spec = _norm_index(arr, idx)
     if any(s[0] in ("n", "a") for s in spec):
         raise Unsupported("store with newaxis / fancy index")
@@ -599,6 +644,9 @@ def np_where(interp, st, args, kwargs):
 
 @reg("numpy.clip")
 def np_clip(interp, st, args, kwargs):
+    args = list(args) + [kwargs[k] for k in ("a_min", "a_max")[len(args) - 1:] if k in kwargs] if len(args) < 3 else args
+    if len(args) < 3:
+        raise Unsupported("np.clip with one bound")
     x, lo, hi = (_val(st, v) for v in args[:3])
     f = lambda v, l, h: T.ite(T.cmp("<", v, l), l, T.ite(T.cmp(">", v, h), h, v))
     if any(isinstance(v, Arr) for v in (x, lo, hi)):
@@ -797,10 +845,33 @@ def np_array(interp, st, args, kwargs):
         return st.alloc(carr_from_list(_deep_list(st, x)), "arr")
     if T.is_num(x):
         return st.alloc(CArr((), {(): x}), "arr0")
+    if isinstance(x, RangeList):
+        n = T.sub(x.hi, x.lo)
+        n = T.ite(T.cmp(">", n, 0), n, 0)
+        lo = x.lo
+        return st.alloc(Arr((n,), lambda ix, lo=lo: T.add(lo, ix[0]), (), "int"), "arr")
     raise Unsupported("np.array of this value")
 
 
 REG["numpy.asarray"] = REG["numpy.array"]
+
+
+@reg("numpy.unravel_index")
+def np_unravel_index(interp, st, args, kwargs):
+    """np.unravel_index(indices, shape) for a one-dimensional shape (n,): the tuple (indices,); every index must lie in
+    [0, n) (numpy raises ValueError otherwise: call-site obligation)"""
+    ind = _val(st, args[0])
+    shape = _shape_arg(st, args[1] if len(args) > 1 else kwargs["shape"])
+    if len(shape) != 1:
+        raise Unsupported("unravel_index for a shape of rank != 1")
+    if not (isinstance(ind, Arr) and ind.ndim == 1 and ind.sort == "int"):
+        raise Unsupported("unravel_index of something that is not a 1-d integer array")
+    if interp.ctx is not None:
+        q = T.Fresh.int("q")
+        v = T.to_z3(ind.get((q,)))
+        interp.ctx.oblige(st, "pre.unravel_index.in_range",
+                          z3.ForAll([q], z3.Implies(z3.And(q >= 0, q < T.to_z3(ind.shape[0])), z3.And(v >= 0, v < T.to_z3(shape[0])))))
+    return (st.alloc(Arr(ind.shape, ind.get, (), "int"), "arr"),)
 
 
 @reg("numpy.atleast_1d")
@@ -876,6 +947,8 @@ def reduce_extreme(interp, st, a, is_max):
 @reg("numpy.max")
 def np_max(interp, st, args, kwargs):
     a = _val(st, args[0])
+    if isinstance(a, (list, tuple)):
+        a = carr_from_list(_deep_list(st, a))
     if not isinstance(a, Arr):
         return a
     return reduce_extreme(interp, st, a, True)
@@ -884,9 +957,59 @@ def np_max(interp, st, args, kwargs):
 @reg("numpy.min")
 def np_min(interp, st, args, kwargs):
     a = _val(st, args[0])
+    if isinstance(a, (list, tuple)):
+        a = carr_from_list(_deep_list(st, a))
     if not isinstance(a, Arr):
         return a
     return reduce_extreme(interp, st, a, False)
+
+
+def _arg_extreme(interp, st, args, kwargs, is_max):
+    """np.argmax / np.argmin along the last axis (or of a 1-D array): the first index at which the extreme is attained.
+    Cells that may be NaN: numpy takes NaN as the extreme, the first NaN wins (same rule as DataArray.argmax(skipna=False))."""
+    a = _val(st, args[0])
+    if not isinstance(a, Arr):
+        raise Unsupported("argmin/argmax of a non-array")
+    axis = st.deref(kwargs.get("axis", args[1] if len(args) > 1 else None))
+    if axis is None and a.ndim != 1:
+        raise Unsupported("argmin/argmax of the flattened n-d array")
+    if axis is not None and not (isinstance(axis, int) and axis in (-1, a.ndim - 1)):
+        raise Unsupported("argmin/argmax along an axis other than the last")
+    n = a.shape[-1]
+    oshape = tuple(a.shape[:-1])
+
+    # one search definition for the whole result: the leading indices are parameters of the definition (placeholders
+    # substituted per cell), so that every cell of the result is an application of the same function symbol
+    ph = [T.Fresh.int("ax") for _ in oshape]
+    bv = T.Fresh.int("m")
+    cell = a.get(tuple(ph) + (bv,))
+    v = T.to_real(T.to_z3(T.xval(cell)))
+    generic = T.make_argmax(0, n, bv, v if is_max else -v, z3.BoolVal(True))
+    if T.xnan(cell) is not False:
+        bq = T.Fresh.int("n")
+        first_nan = T.make_first(0, n, bq, T.to_z3(T.xnan(a.get(tuple(ph) + (bq,)))))
+        generic = T.ite(T.cmp("<", first_nan, n), first_nan, generic)
+
+    def val(idx):
+        return z3.substitute(generic, *[(h, T.to_z3(i)) for h, i in zip(ph, idx)]) if ph else generic
+    if interp.ctx is not None:
+        # an empty sequence raises ValueError
+        if not interp.truth(st, T.cmp(">", n, 0)):
+            from .interp import PyRaise
+            raise PyRaise(ExcVal("ValueError", ("attempt to get argmin of an empty sequence",)))
+    if not oshape:
+        return val(())
+    return st.alloc(Arr(oshape, val, (), "int"), "arr")
+
+
+@reg("numpy.argmin")
+def np_argmin(interp, st, args, kwargs):
+    return _arg_extreme(interp, st, args, kwargs, False)
+
+
+@reg("numpy.argmax")
+def np_argmax(interp, st, args, kwargs):
+    return _arg_extreme(interp, st, args, kwargs, True)
 
 
 REG["numpy.amax"] = REG["numpy.max"]
@@ -1230,8 +1353,20 @@ def b_tuple(interp, st, args, kwargs):
     return tuple(interp.iterate(st, args[0])) if args else ()
 
 
+class RangeList:
+    """list(range(lo, hi)) of symbolic length: the integers lo .. hi-1 in order.  Only np.array(...) of it is modelled
+    (any other use of the value is unsupported)."""
+
+    def __init__(self, lo, hi):
+        self.lo, self.hi = lo, hi
+
+
 @reg("builtins.list", True)
 def b_list(interp, st, args, kwargs):
+    if args:
+        src = st.deref(args[0])
+        if isinstance(src, RangeVal) and src.step == 1 and not all(isinstance(x, int) for x in (src.lo, src.hi)):
+            return RangeList(src.lo, src.hi)
     return st.alloc(list(interp.iterate(st, args[0])) if args else [], "list")
 
 
